@@ -17,7 +17,7 @@ TECHNIQUE = ("property-based testing (Hypothesis) with an adversarial stepping w
              "imported: every clock read returns the next element of a generated schedule; the agent echoes or perturbs "
              "the request-id / msgID / community / version of one chosen response; two-directional oracle")
 RULE = ("case = operation {get, multiget, getnext, multigetnext, set, multiset, bulkget, walk, multiwalk, bulkwalk, table, "
-        "bulktable} x clock schedule (start over Integer32, increments from {0, 0.3, 0.999, 1, 1.5, 60} per read) x protocol "
+        "bulktable} x clock schedule (start over 0 .. 2^32+3 including values at and across 2^31 and 2^32, increments from {0, 0.3, 0.999, 1, 1.5, 60} per read) x protocol "
         "{v1, v2c, v3 x 3 levels} x perturbation {none, id+1, id-1, id 0, random id, the previous request's id, other "
         "community, empty community, near-miss community (configured one with an extra / changed octet, also >= 0x80), other version number, discovery msgID} applied to the k-th response x optional history "
         "(warm-up exchange under other credentials, then configure) x walks in strict and lenient (errors=warn) mode x optionally the same read operation twice in flight on the client (echo direction); non-trivial = the clock advances by >= 1 s between two "
@@ -360,7 +360,8 @@ def cases(draw):
     if kind == "disco_msgid":
         pert["delta"] = draw(st.sampled_from([1, -1, 4711, 2 ** 32, -2 ** 32, 2 ** 33]))
     case = dict(proto=proto, op=op, perturb=pert,
-                clock=draw(st.one_of(st.sampled_from([0, 0.25, 0.999, 1, 5, 1_700_000_000, 1_700_000_000.5, 1_700_000_000.999, 2 ** 31 - 100]),
+                clock=draw(st.one_of(st.sampled_from([0, 0.25, 0.999, 1, 5, 1_700_000_000, 1_700_000_000.5, 1_700_000_000.999, 2 ** 31 - 100,
+                                                      2 ** 31 - 1, 2 ** 31, 2 ** 31 + 0.5, 2 ** 31 + 5, 2 ** 32 - 1, 2 ** 32 + 3]),
                                      st.floats(1, 2 ** 31 - 1000, allow_nan=False))),
                 inc=draw(INCS), bulk=draw(st.sampled_from([1, 2, 3, 10])))
     if kind == "none" and draw(st.integers(0, 3)) == 0:
